@@ -2502,21 +2502,29 @@ class ProvDocument(ProvBundle):
             serializer.serialize(stream, **args)
         else:
             location = destination
-            scheme, netloc, path, params, _query, fragment = urlparse(location)
-            if netloc != "":
+            url = urlparse(location)
+            if url.netloc != "":
                 print(
                     "WARNING: not saving as location " + "is not a local file reference"
                 )
                 return
-            fd, name = tempfile.mkstemp()
-            stream = os.fdopen(fd, "wb")
-            serializer.serialize(stream, **args)
-            stream.close()
-            if hasattr(shutil, "move"):
-                shutil.move(name, path)
-            else:
-                shutil.copy(name, path)
-                os.remove(name)
+            # Use the file name as it was given ('#', '?', ';' or ':' are
+            # legal in file names); only file: URLs are converted to a path
+            path = url.path if url.scheme == "file" else location
+            # Write a temporary file next to the destination and move it into
+            # place in one step, so that a failure while serializing or
+            # writing never leaves a truncated document under that name
+            fd, name = tempfile.mkstemp(dir=os.path.dirname(os.path.abspath(path)))
+            try:
+                with os.fdopen(fd, "wb") as stream:
+                    serializer.serialize(stream, **args)
+                os.replace(name, path)
+            except BaseException:
+                try:
+                    os.remove(name)
+                except OSError:
+                    pass
+                raise
 
     @staticmethod
     def deserialize(source=None, content=None, format="json", **args):
